@@ -35,10 +35,16 @@ STRS = [('""', ''), ('"a"', 'a'), ('" a "', ' a '), ('"\\""', '"'), ('"\\\\"', '
         ('"\\b\\f\\n\\r\\t"', '\b\f\n\r\t'), ('"\\u0041"', 'A'), ('"\\u00e9"', 'é'), ('"\\ud83d\\ude00"', '😀'),
         ('"é"', 'é'), ('"😀"', '😀'), ('"a\\u0000b"', 'a\x00b'), ('"\\u007f"', '\x7f'), ('"\x7f"', '\x7f'),
         ('"\\u001f"', '\x1f'), ('"\\uffff"', '\uffff'), ('"\\u2028"', '\u2028'), ('"\\ud7ff\\ue000"', '\ud7ff\ue000'),
-        ('"' + 'x' * 70 + '"', 'x' * 70), ('"' + 'é' * 65 + '"', 'é' * 65), ('"</script>"', '</script>')]
+        ('"' + 'x' * 70 + '"', 'x' * 70), ('"' + 'é' * 65 + '"', 'é' * 65), ('"</script>"', '</script>'),
+        # escaped surrogate pairs outside plane 1 (plane 1 = emoji is what every test corpus uses): an even plane,
+        # the last plane, the first and last code point reachable by a pair, and the same characters unescaped
+        ('"\\ud840\\udc0b"', '\U0002000b'), ('"\\ud869\\uded6"', '\U0002a6d6'), ('"\\udbff\\udffd"', '\U0010fffd'),
+        ('"\\ud800\\udc00"', '\U00010000'), ('"\\udbff\\udfff"', '\U0010ffff'), ('"\\uD87E\\uDC04x"', '\U0002f804x'),
+        ('"\U0002000b"', '\U0002000b'), ('"\U0010fffd"', '\U0010fffd')]
 KEYS = [('"a"', 'a'), ('"b"', 'b'), ('""', ''), ('"a b"', 'a b'), ('"\\u0061"', 'a'), ('"1x"', '1x'), ('"é"', 'é'),
         ('"a\\"b"', 'a"b'), ('"a.b"', 'a.b'), ('"A"', 'A'), ('"ab"', 'ab'), ('"～"', '～'), ('"😀"', '😀'),
-        ('"\\uff5e"', '～'), ('"\\ud83d\\ude00"', '😀'), ('"a\\u0000"', 'a\x00'), ('"\\ue000"', '\ue000')]
+        ('"\\uff5e"', '～'), ('"\\ud83d\\ude00"', '😀'), ('"a\\u0000"', 'a\x00'), ('"\\ue000"', '\ue000'),
+        ('"\\ud840\\udc0b"', '\U0002000b'), ('"\\udbff\\udffd"', '\U0010fffd')]
 
 
 def S(src, val):
